@@ -251,3 +251,24 @@ Proof. exact block_read_back. Qed.
 Theorem c15_tex_roundtrip : forall S t, wf_fmt (s_tex S) = true -> fits (s_tex S) (map VFloat t) = true ->
   forall pre post, exists bs, pack_tex S t = Some bs /\ read_tex S (pre ++ bs ++ post) (List.length pre) = Some t.
 Proof. exact tex_roundtrip. Qed.
+
+(** ** Round 3 *)
+(** Resource flags: for the generated flag expressions of the three directory-entry sites of save() and the flag test of
+    read(), once they pass [flags_ok] (complete enumeration of the one-byte field): an out-of-line resource is stored with
+    bit 0x02 cleared and nothing else changed, an inline one with the bit set; read() fetches the data block for the
+    first and takes the value for the second; the stored flags are a fixpoint of saving again. *)
+Theorem c15_resource_flags_roundtrip : forall c, flags_ok c = true -> forall f, (0 <= f < 256)%Z ->
+  fl_eval (fl_offset c) f = clear2 f /\ fl_eval (fl_inline c) f = set2 f
+  /\ ft_eval (fl_test c) (fl_eval (fl_offset c) f) = true /\ ft_eval (fl_test c) (fl_eval (fl_inline c) f) = false
+  /\ (0 <= clear2 f < 256)%Z /\ (0 <= set2 f < 256)%Z
+  /\ fl_eval (fl_offset c) (clear2 f) = clear2 f /\ fl_eval (fl_inline c) (set2 f) = set2 f.
+Proof. exact flags_roundtrip. Qed.
+Example c15_flags_ok_inhabited : flags_ok good_flagcfg = true.
+Proof. exact flags_ok_inhabited. Qed.
+(** the shape of seeded fault c15_4 (`res.flags & 0x02` for out-of-line entries): flags 0x40 are stored as 0, flags 0x42
+    as 2, which read() takes for an inline value. *)
+Theorem c15_masked_flags_refuted :
+  flags_ok masked_flagcfg = false
+  /\ fl_eval (fl_offset masked_flagcfg) 64 = 0%Z
+  /\ ft_eval (fl_test masked_flagcfg) (fl_eval (fl_offset masked_flagcfg) 66) = false.
+Proof. exact masked_flags_refuted. Qed.
